@@ -85,6 +85,18 @@ Theorem C17_backward_run_lengths : forall c due rv o e, o_init_log o = true ->
 Proof. exact backward_lengths. Qed.
 Print Assumptions C17_backward_run_lengths.
 
+(* ... hence for every link of a configuration whose input lists are mirrored
+   in the output lists (what append_input_task / extend_input_task_list build) *)
+Theorem C17_backward_run_order_for_mirrored_links : forall c due o e p i, o_init_state o = true -> o_init_log o = true ->
+  p < nT c -> i < nT c -> In (p, FS) (t_inputs c i) ->
+  (forall u v k, In (u, k) (t_inputs c v) -> In (v, k) (t_outputs c u)) ->
+  let r := snd (backward_simulate c due true o e) in
+  forall j k, nth_error (l_st (tl r p)) j = Some TWorking -> nth_error (l_st (tl r i)) k = Some TWorking -> j < k.
+Proof.
+  intros c due o e p i Hs Hl Hp Hi Hin Hm. apply (backward_fs_order c due o e p i Hs Hl Hp Hi). apply Hm. exact Hin.
+Qed.
+Print Assumptions C17_backward_run_order_for_mirrored_links.
+
 (* The order theorem speaks of links recorded in the predecessor's OUTPUT list
    (the list the reversed run gates on).  For a link that is declared in the
    successor's input list only -- what BaseTask(input_task_list=[[p, FS]])
